@@ -54,8 +54,10 @@ def stream_parse(ck, model_ok):
     if model_ok:
         try:
             model = coq_eval(M.HEADER, ["option_map gser (prql_parse %s)" % G.tokens_coq(t) for t, _ in cases])
-        except RuntimeError as ex:
+        except (RuntimeError, ValueError, TypeError) as ex:
             ck.coverage["parse_model_error"] = str(ex)[-400:]
+            ck.violation("the parser model could not be evaluated: the parse correspondence did not run",
+                         {"kind": "model-evaluation-failed", "error": str(ex)[-400:]}, no_input=True)
     for k, (toks, src) in enumerate(cases):
         ck.count("parse", src, nontrivial=impl[k] is not None)
         ck.stat("parse", "impl:" + ("not-an-operator-expression" if impl[k] is None else "tree"))
@@ -126,9 +128,11 @@ def stream_sql_and_e2e(ck, model_ok, tm=None):
             for x in raw:
                 per, corner, shipped = x
                 model.append((per[0][0], per[1][0], corner, shipped, [per[0][1], per[1][1]], [per[0][2], per[1][2]]))
-        except RuntimeError as ex:
+        except (RuntimeError, ValueError, TypeError) as ex:
             ck.coverage["sql_model_error"] = str(ex)[-600:]
             model = [None] * len(cases)
+            ck.violation("the SQL emission model could not be evaluated: the text correspondence did not run",
+                         {"kind": "model-evaluation-failed", "error": str(ex)[-600:]}, no_input=True)
     tm['coq_eval_models'] = round(time.time() - _t, 1)
     setup = M.setup_sql(rows)
     for di, dialect in enumerate(M.DIALECTS):
